@@ -261,7 +261,39 @@ func (w *World) Locks() *LockInfo {
 				}
 				switch ci.(type) {
 				case *ssa.Go:
-					acc = intersect(acc, LockSet{})
+					// fork-join: a goroutine the spawning function always waits for
+					// (WaitGroup.Wait on every path to its exits) runs while the spawner
+					// still holds the locks it held at both the `go` and the Wait.
+					joined := LockSet{}
+					if g, ok := ci.(*ssa.Go); ok {
+						var waits []ssa.Instruction
+						EachInstr(caller, func(in ssa.Instruction) {
+							if c2 := asCall(in); c2 != nil {
+								if f := c2.Common().StaticCallee(); f != nil && f.Name() == "Wait" && f.Pkg != nil && f.Pkg.Pkg.Path() == "sync" {
+									waits = append(waits, in)
+								}
+							}
+						})
+						if len(waits) > 0 {
+							isWait := func(in ssa.Instruction) bool {
+								for _, wt := range waits {
+									if wt == in {
+										return true
+									}
+								}
+								return false
+							}
+							if (PathQ{Stop: isWait, Goal: isReturn}).From(g) == nil {
+								joined = fl.HeldAt(g)
+								for _, wt := range waits {
+									if Reaches(g, wt) {
+										joined = intersect(joined, fl.HeldAt(wt))
+									}
+								}
+							}
+						}
+					}
+					acc = intersect(acc, joined)
 				case *ssa.Defer:
 					acc = intersect(acc, fl.HeldAtExits())
 				default:
@@ -311,6 +343,9 @@ func closureEscapes(f *ssa.Function) bool {
 	if !esc {
 		EachInstr(p, func(in ssa.Instruction) {
 			var ops [16]*ssa.Value
+			if _, isMC := in.(*ssa.MakeClosure); isMC {
+				return
+			}
 			for _, op := range in.Operands(ops[:0]) {
 				if op != nil && *op == ssa.Value(f) {
 					if ci, ok := in.(ssa.CallInstruction); ok && ci.Common().Value == *op {
